@@ -61,7 +61,18 @@ func (s *signer) Unmarshal(bytes []byte) error {
 		return fmt.Errorf("cannot unmarshal signer: [%w]", err)
 	}
 
+	if pbSigner.Wallet == nil {
+		return fmt.Errorf("missing wallet")
+	}
+
 	walletPublicKey := unmarshalPublicKey(pbSigner.Wallet.PublicKey)
+	if walletPublicKey.X == nil || walletPublicKey.Y == nil {
+		return fmt.Errorf("invalid wallet public key")
+	}
+
+	if err := validateMemberIndex(pbSigner.SigningGroupMemberIndex); err != nil {
+		return err
+	}
 
 	walletSigningGroupOperators := make(
 		[]chain.Address,
